@@ -132,6 +132,92 @@ func TestBoundedC15Parse(t *testing.T) {
 			}
 		}
 	}
+	// print / parse round trip (C17: the textual form of a loaded configuration loads back to equivalent time
+	// intervals): every accepted time range (all start < end over 0..1440 in steps that hit every hour and every
+	// minute of the first and last hour), every weekday, month, day-of-month and year range over their legal values,
+	// through both the YAML and the JSON form.
+	mins := []int{}
+	for m := 0; m <= 1440; m++ {
+		if m%60 == 0 || m < 61 || m > 1379 || m%37 == 0 {
+			mins = append(mins, m)
+		}
+	}
+	for _, a := range mins {
+		for _, z := range mins {
+			if a >= z {
+				continue
+			}
+			in := TimeRange{StartMinute: a, EndMinute: z}
+			cases++
+			yb, err := yaml.Marshal(in)
+			if err != nil {
+				t.Fatalf("marshal %v: %v", in, err)
+			}
+			var out TimeRange
+			if err := yaml.Unmarshal(yb, &out); err != nil || out != in {
+				t.Fatalf("time range %d..%d printed as %q does not load back (%v, %v)", a, z, yb, out, err)
+			}
+			jb, err := json.Marshal(in)
+			if err != nil {
+				t.Fatalf("json marshal %v: %v", in, err)
+			}
+			var jout TimeRange
+			if err := json.Unmarshal(jb, &jout); err != nil || jout != in {
+				t.Fatalf("time range %d..%d printed as JSON %q does not load back (%v, %v)", a, z, jb, jout, err)
+			}
+		}
+	}
+	for i := 0; i <= 6; i++ {
+		for j := i; j <= 6; j++ {
+			in := WeekdayRange{InclusiveRange{Begin: i, End: j}}
+			cases++
+			yb, _ := yaml.Marshal(in)
+			var out WeekdayRange
+			if err := yaml.Unmarshal(yb, &out); err != nil || out != in {
+				t.Fatalf("weekday range %d..%d printed as %q does not load back (%v, %v)", i, j, yb, out, err)
+			}
+		}
+	}
+	for i := 1; i <= 12; i++ {
+		for j := i; j <= 12; j++ {
+			in := MonthRange{InclusiveRange{Begin: i, End: j}}
+			cases++
+			yb, _ := yaml.Marshal(in)
+			var out MonthRange
+			if err := yaml.Unmarshal(yb, &out); err != nil || out != in {
+				t.Fatalf("month range %d..%d printed as %q does not load back (%v, %v)", i, j, yb, out, err)
+			}
+		}
+	}
+	for i := -31; i <= 31; i++ {
+		for j := -31; j <= 31; j++ {
+			in := DayOfMonthRange{InclusiveRange{Begin: i, End: j}}
+			yb, err := yaml.Marshal(in)
+			if err != nil {
+				continue
+			}
+			var probe DayOfMonthRange
+			if yaml.Unmarshal([]byte(fmt.Sprintf("'%d:%d'", i, j)), &probe) != nil {
+				continue // not a legal range
+			}
+			cases++
+			var out DayOfMonthRange
+			if err := yaml.Unmarshal(yb, &out); err != nil || out != in {
+				t.Fatalf("day-of-month range %d..%d printed as %q does not load back (%v, %v)", i, j, yb, out, err)
+			}
+		}
+	}
+	for i := 2019; i <= 2026; i++ {
+		for j := i; j <= 2026; j++ {
+			in := YearRange{InclusiveRange{Begin: i, End: j}}
+			cases++
+			yb, _ := yaml.Marshal(in)
+			var out YearRange
+			if err := yaml.Unmarshal(yb, &out); err != nil || out != in {
+				t.Fatalf("year range %d..%d printed as %q does not load back (%v, %v)", i, j, yb, out, err)
+			}
+		}
+	}
 	b, _ := json.Marshal(map[string]any{"cases": cases, "hours_up_to": maxH})
 	fmt.Printf("GOVC-BOUNDED %s\n", b)
 }
